@@ -64,7 +64,19 @@ func c20BuildProp(k *verifkit.Kit) func(c c20Build) error {
 		for _, tk := range tasks {
 			got = append(got, fmt.Sprintf("%T %s", tk, tk))
 		}
-		if strings.Join(got, " | ") != strings.Join(want, " | ") {
+		// (kind by kind and in order; a task is told by its type and by the interface name or address its description
+		// mentions - how the description is worded is the code's business)
+		same := len(got) == len(want)
+		for i := 0; same && i < len(want); i++ {
+			wt, wrest, _ := strings.Cut(want[i], " ")
+			gt, grest, _ := strings.Cut(got[i], " ")
+			same = wt == gt
+			if q := strings.Index(wrest, "\""); same && q >= 0 {
+				name := strings.Trim(wrest[q:], "\"")
+				same = strings.Contains(grest, name)
+			}
+		}
+		if !same {
 			return verifkit.Violf("C20/task-list", "modes %v debug %q:\nwant %s\ngot  %s", c.Modes, c.Debug, strings.Join(want, " | "), strings.Join(got, " | "))
 		}
 		return nil
